@@ -573,7 +573,9 @@ def mon_no_panic_returns(ctx, conn):
         if f[2] == "stallcut" and ("served=false" in out or "looped=false" in out):
             # a peer that stopped reading, went on sending and then disconnected
             viol(ctx, conn, "serveconn-did-not-return-after-stalled-peer-left", dict(out=out))
-        if f[2] == "end" and out != "ok returned":
+        if f[2] == "end" and out.startswith("ok returned left-behind"):
+            viol(ctx, conn, "goroutines-left-behind-after-serveconn-returned", dict(out=out))
+        elif f[2] == "end" and out != "ok returned":
             viol(ctx, conn, "serveconn-did-not-return", dict(out=out))
         if f[2] == "cut" and "returned" not in items and not out.startswith("out gone") and out != "out -":
             pass
@@ -784,8 +786,9 @@ def run_family(ctx, areas, monitors, rule):
 
 
 def run_c01(ctx):
-    return run_family(ctx, ["srv-basic"], [lambda c, k: mon_requests_responses(c, k), mon_flow],
-                      "srv-basic: sets of <= MaxConcurrentStreams well-formed requests, random HPACK representation per field, header blocks cut into CONTINUATION at random octets, padding, priority section, DATA chunking and empty DATA, random interleaving (block contiguity kept), random completion order, buffered/streamed/empty responses.")
+    return run_family(ctx, ["srv-basic", "srv-hpackupd"], [lambda c, k: mon_requests_responses(c, k), mon_flow],
+                      "srv-basic: sets of <= MaxConcurrentStreams well-formed requests, random HPACK representation per field, header blocks cut into CONTINUATION at random octets, padding, priority section, DATA chunking and empty DATA, random interleaving (block contiguity kept), random completion order, buffered/streamed/empty responses. "
+                      "srv-hpackupd: request and trailer blocks opening with 1-3 dynamic table size updates, cut at every octet of the opening and of the first field, in three frames at every pair of octets of the opening, with empty CONTINUATION frames (the shapes of the repaired F04/F05).")
 
 
 def run_c06(ctx):
